@@ -5,6 +5,7 @@
 import SV.ShardProofs
 import SV.Persist.Proofs
 import SV.Persist.ShardedProofs
+import SV.GenProofs.Shard
 namespace SV.Props.C19
 open SV SV.Shard
 
@@ -56,5 +57,20 @@ theorem sharded_range_visits_the_union_once (n maxBatch : Nat) (hn : 2 ≤ n) (h
     (((ops ++ [Persist.Op.tick]).foldl Persist.Sharded.step (Persist.Sharded.init n maxBatch)).range.map (·.1)).Nodup ∧
     ∀ k, alookup k ((ops ++ [Persist.Op.tick]).foldl Persist.Sharded.step (Persist.Sharded.init n maxBatch)).range
       = (ops.foldl Persist.specStep (fun _ => none)) k := Persist.sharded_run_range n maxBatch hn hm ops
+
+/-- the tie by translation: the two tests of `ComputeId` in the CURRENT source (which bytes of the key are read; when the low
+    mask replaces the high one) are the model's, and they read exactly the operands pinned here -/
+theorem source_computeId_tests_are_the_models (n : Nat) (key : Bytes) (hn : 1 ≤ n) :
+    suffixOf n key =
+      (if Gen.shardKeepsWholeKey (len_key := key.length) (sp_bytesNeeded := bytesNeeded n)
+       then key.drop (key.length - bytesNeeded n) else key) ∧
+    computeId n key =
+      (let addr := foldAddr (suffixOf n key)
+       if Gen.shardFallsBackToLowMask (shardIndex := ((addr &&& maskHigh n : Nat) : Int)) (sp_numOfShards := n)
+       then addr &&& maskLow n else addr &&& maskHigh n) ∧
+    Gen.shardKeepsWholeKey_leaves = ["len(key) : Int", "sp.bytesNeeded : Int"] ∧
+    Gen.shardFallsBackToLowMask_leaves = ["shardIndex : Int", "sp.numOfShards : Int"] :=
+  ⟨GenProofs.suffixOf_eq_source n key, GenProofs.computeId_eq_source n key hn,
+   GenProofs.shardKeepsWholeKey_leaves, GenProofs.shardFallsBackToLowMask_leaves⟩
 
 end SV.Props.C19
